@@ -6,6 +6,7 @@ import (
 	"fmt"
 	"sort"
 	"strings"
+	"time"
 
 	"github.com/dgraph-io/badger/v4"
 
@@ -30,6 +31,14 @@ type dsmState struct {
 		t      int64
 		commit int
 	}
+	// handles a client may still hold: the Dataset object of a dataset that was deleted meanwhile, and the
+	// continuation of a paged relationship query whose scope was resolved before the delete
+	held     map[string]*Dataset
+	stale    map[string]*Dataset
+	cont     []*RelatedFrom
+	contDS   string
+	contSeen int
+	contInc  int // model incarnation the query was scoped to
 }
 
 // countKeysForDataset counts raw keys of the five per-dataset families that carry the internal dataset id.
@@ -187,7 +196,7 @@ func VReplayDsm(task engine.SeqTask) (res engine.SeqResult) {
 		res.HarnessEr = err.Error()
 		return
 	}
-	st := &dsmState{incIDs: map[int]uint32{}}
+	st := &dsmState{incIDs: map[int]uint32{}, held: map[string]*Dataset{}, stale: map[string]*Dataset{}}
 	chk := &VCheck{H: h, SkipKnownC03: true}
 	// preload the survivor with data sharing ids and references
 	pool := model.Pool(0)
@@ -246,10 +255,11 @@ func VReplayDsm(task engine.SeqTask) (res engine.SeqResult) {
 				res.Skip, res.Key = true, "skip"
 				return
 			}
-			if _, err := w.Dsm.CreateDataset(h.DsName(op.DS), nil); err != nil {
+			if ds, err := w.Dsm.CreateDataset(h.DsName(op.DS), nil); err != nil {
 				chk.fail("C07:create-rejected", "create rejected: "+err.Error(), nil)
 			} else {
 				h.M.Create(op.DS)
+				st.held[op.DS] = ds
 			}
 		case "delete":
 			if !exists {
@@ -263,6 +273,10 @@ func VReplayDsm(task engine.SeqTask) (res engine.SeqResult) {
 				chk.fail("C07:delete-rejected", "delete rejected: "+err.Error(), nil)
 			} else {
 				h.M.Delete(op.DS)
+				if st.held[op.DS] != nil {
+					st.stale[op.DS] = st.held[op.DS]
+					delete(st.held, op.DS)
+				}
 			}
 		case "rename":
 			_, toExists := h.M.Datasets[op.To]
@@ -295,6 +309,63 @@ func VReplayDsm(task engine.SeqTask) (res engine.SeqResult) {
 			}
 		case "restart":
 			w.Restart()
+			// handles do not survive the process
+			st.held, st.stale, st.cont = map[string]*Dataset{}, map[string]*Dataset{}, nil
+		case "stalebatch":
+			// a writer that obtained the Dataset object before the dataset was deleted stores through it afterwards:
+			// whatever the call answers, nothing of it may become visible (the model does not change)
+			ds := st.stale[op.DS]
+			if ds == nil {
+				res.Skip, res.Key = true, "skip"
+				return
+			}
+			es, _ := h.ents(op.Ents)
+			_ = ds.StoreEntities(es)
+		case "qstart":
+			// first page (limit 1) of an outgoing relationship query on e1 scoped to the dataset; the client keeps the token
+			if !exists {
+				res.Skip, res.Key = true, "skip"
+				return
+			}
+			from, err := w.Store.ToRelatedFrom([]string{h.URI("e1")}, "*", false, []string{h.DsName(op.DS)}, time.Now().UnixNano())
+			if err != nil {
+				res.Skip, res.Key = true, "skip"
+				return
+			}
+			r1, err := w.Store.GetManyRelatedEntitiesAtTime(from, 1, true)
+			if err != nil || len(r1.Cont) == 0 {
+				res.Skip, res.Key = true, "skip" // nothing to continue
+				return
+			}
+			st.cont, st.contDS, st.contSeen = r1.Cont, op.DS, len(r1.Relations)
+			st.contInc = h.M.Datasets[op.DS].Inc
+		case "qcont":
+			if st.cont == nil {
+				res.Skip, res.Key = true, "skip"
+				return
+			}
+			r2, err := w.Store.GetManyRelatedEntitiesAtTime(st.cont, 1, true)
+			live := false
+			for _, d := range h.M.LiveInOrder() {
+				if d.Inc == st.contInc {
+					live = true // possibly under a new name
+				}
+			}
+			if last && err == nil {
+				chk.Checks++
+				if !live {
+					if len(r2.Relations) > 0 {
+						_, l := h.relSet(r2.Relations)
+						chk.fail("C07:continued-query-returns-deleted-data:"+st.contDS, fmt.Sprintf("a paged relationship query scoped to %s was continued after %s was deleted and returned %v", st.contDS, st.contDS, l), nil)
+					}
+				}
+			}
+			if err == nil && len(r2.Cont) > 0 {
+				st.cont = r2.Cont
+				st.contSeen += len(r2.Relations)
+			} else {
+				st.cont = nil
+			}
 		default:
 			res.HarnessEr = "unknown op " + op.K
 			return
@@ -326,7 +397,15 @@ func VReplayDsm(task engine.SeqTask) (res engine.SeqResult) {
 		liveDesc = append(liveDesc, d.Name)
 	}
 	sort.Strings(liveDesc)
-	res.Key = h.Canon(append(append([]string{}, p.IDs...), "e4"), vLiveNames(h), strings.Join(liveDesc, ",")+"|dead:"+strings.Join(deadKeys, ","))
+	var hs []string
+	for n := range st.stale {
+		hs = append(hs, "stale:"+n)
+	}
+	sort.Strings(hs)
+	if st.cont != nil {
+		hs = append(hs, fmt.Sprintf("cont:%s:%d", st.contDS, st.contSeen))
+	}
+	res.Key = h.Canon(append(append([]string{}, p.IDs...), "e4"), vLiveNames(h), strings.Join(liveDesc, ",")+"|dead:"+strings.Join(deadKeys, ",")+"|"+strings.Join(hs, ","))
 	// a restart is meant to change nothing: mark the state right behind it, or the search would never go on from there
 	if n := len(task.Hist); n > 0 {
 		var lo struct{ K string `json:"k"` }
